@@ -361,7 +361,7 @@ def gen_entries(rng, P, vec_prefixes, counter):
                     continue
                 pos = next(i for i, a in enumerate(first.addr) if not isinstance(a, str))
                 used = {e.addr[pos] for e in entries if e.static == s}
-                comps = [next(i for i in range(5) if i not in used)]
+                comps = [next(i for i in range(16) if i not in used)]
             elif form == "int":
                 comps = [ri(3)]
             elif form == "scalar-array":
